@@ -538,6 +538,7 @@ class WsgiApplication(HttpBase):
             # drop the partially built response and its status so that the
             # fault is what gets serialized and reported
             p_ctx.out_document = None
+            p_ctx.out_string = None
             p_ctx.transport.resp_code = None
             return self.handle_error(p_ctx, others, p_ctx.out_error,
                                                                  start_response)
